@@ -206,8 +206,11 @@ func haGenCase(c *kit.Ctx, stream uint64, i int, profile string) *haCase {
 	}
 	cs.PrefixRnds = r.Range(2, c.N(3, 4))
 	cs.FlushTail = r.Bool()
-	nets := []string{"S0", "S1", "S2", "S3", "S4", "mix", "S6"}
+	nets := []string{"S0", "S1", "S2", "S3", "S4", "mix", "S6", "S7"}
 	cs.Net = nets[(i/4)%len(nets)]
+	if i%11 == 10 {
+		cs.Net = "S7"
+	}
 	switch cs.Net {
 	case "S1", "mix":
 		cs.DelayMaxMs = []int{5, 50, 500, 3000}[r.Intn(4)]
@@ -223,6 +226,19 @@ func haGenCase(c *kit.Ctx, stream uint64, i int, profile string) *haCase {
 	}
 	cs.FlipPm = []int{150, 400, 800}[r.Intn(3)]
 	cs.HoldHeal = r.Chance(1, 3)
+	s7 := cs.Net == "S7"
+	if s7 {
+		// S7 is directed at one-period quorum intersection: honest nodes only, delays only, a quorum must be
+		// reachable without one node (N >= 5, equal stake)
+		cs.Nodes = []int{5, 7}[(i/2)%2]
+		cs.Stake = "equal"
+	}
+	defer func() {
+		if s7 {
+			cs.Net, cs.Adv, cs.AdvPct, cs.AdvAccts = "S7", "none", 0, 0
+			cs.Crashes, cs.QCrashPm = nil, 0
+		}
+	}()
 	switch profile {
 	case "safety":
 		advs := []string{"none", "echo", "echo", "mix", "silence", "replay", "malformed"}
@@ -291,7 +307,7 @@ func haCasesC01(c *kit.Ctx) []*haCase {
 func TestVerifHAC01(t *testing.T) {
 	c := kit.Start(t, "C01", "cluster")
 	defer c.Finish()
-	c.Rule("schedules of a cluster of N in {3,4,5,7} real agreement services (equal/skewed stake, real VRF sortition and signatures) under PRNG-driven strategies: S0 benign, S1 bounded reorder with drops and duplicates, S2 starvation of nodes (frozen clock, no deliveries), S3 threshold-splitting partitions flipped at period boundaries and at the first cert vote, S4 payloads withheld until the node holds the certificate, S5 crashes at hook points and at quiescent points with restart from the crash DB snapshot (some double crashes); adversary accounts with real keys holding 10-20% of stake that double-propose and send different soft/cert/next votes to different partitions, replay stale traffic, or inject malformed votes; every schedule ends with a synchronous tail. Oracle: one block digest per round over all Ensure* events of all nodes and incarnations, per node no second different block and no skipped round. distinct = distinct schedule fingerprints that produced a commit in a period >= 1 or after a crash")
+	c.Rule("schedules of a cluster of N in {3,4,5,7} real agreement services (equal/skewed stake, real VRF sortition and signatures) under PRNG-driven strategies: S0 benign, S1 bounded reorder with drops and duplicates, S2 starvation of nodes (frozen clock, no deliveries), S3 threshold-splitting partitions flipped at period boundaries and at the first cert vote, S4 payloads withheld until the node holds the certificate, S5 crashes at hook points and at quiescent points with restart from the crash DB snapshot (some double crashes), S6 one node receives everything while the others see nothing, S7 payloads delivered past the deadline timeout with cert votes and next votes delivered to different subsets first (honest nodes, delays only); adversary accounts with real keys holding 10-20% of stake that double-propose and send different soft/cert/next votes to different partitions, replay stale traffic, or inject malformed votes; every schedule ends with a synchronous tail. Oracle: one block digest per round over all Ensure* events of all nodes and incarnations, per node no second different block and no skipped round. distinct = distinct schedule fingerprints that produced a commit in a period >= 1 or after a crash")
 	c.Assume("sampled schedules over small N; intra-node goroutine interleaving is whatever the Go runtime produces; the simulated ledger, clock and network are trusted; crash = abandon the incarnation at a hook point and restart on a snapshot of the crash DB row (SQLite transaction atomicity trusted)")
 	cases := haCasesC01(c)
 	n := len(cases)
